@@ -201,7 +201,7 @@ M("cb_x_alias", "pinned defect: callback state.x aliases the live iterate (rever
   ("lbfgsb/main.py", "                        message=istate.task_str,\n                        x=np.copy(x),\n", "                        message=istate.task_str,\n                        x=x,\n"))
 M("cb_nit_off_by_one", "pinned defect: callback state.nit is k-1 (reverse of fix 02bb3b3)", ["C07"],
   ("lbfgsb/main.py", "                        nit=istate.nit + 1,\n", "                        nit=istate.nit,\n"))
-M("cb_before_memory_update", "callback state built from the memory before the update of this iteration", ["C07", "C18"],
+M("cb_before_memory_update", "callback state built from the memory before the update of this iteration", ["C07"],
   ("lbfgsb/main.py", "                        hess_inv=LbfgsInvHessProduct(\n                            np.atleast_2d(np.diff(np.array(X), axis=0)),\n                            np.atleast_2d(np.diff(np.array(G), axis=0)),\n                        ),\n                    ),\n                ):",
    "                        hess_inv=LbfgsInvHessProduct(\n                            np.atleast_2d(np.diff(np.array(X)[:-1], axis=0)),\n                            np.atleast_2d(np.diff(np.array(G)[:-1], axis=0)),\n                        ),\n                    ),\n                ):"))
 M("cb_xk_alias", "xk handed to the callback is the live iterate", ["C07"],
@@ -270,3 +270,18 @@ M("sc_packaged_formula", "packaged scaler uses the 2-norm instead of the max cha
   ("lbfgsb/utils.py", "    max_change = max(abs(updated_params))\n", "    max_change = np.sqrt(np.sum(updated_params**2))\n"))
 M("sc_grad_not_scaled_first", "first gradient not scaled (only f0)", ["C17"],
   ("lbfgsb/main.py", "    grad = grad * sf.scaling_factor\n", "    grad = grad * 1.0\n"))
+
+# --- hess_inv pairs ---------------------------------------------------------------------
+M("hi_newest_first", "result pairs stored newest-first", ["C18"],
+  ("lbfgsb/main.py", "        hess_inv=LbfgsInvHessProduct(\n            np.atleast_2d(np.diff(np.array(X), axis=0)),\n            np.atleast_2d(np.diff(np.array(G), axis=0)),\n        ),\n    )\n\n\ndef initialize_X_and_G",
+   "        hess_inv=LbfgsInvHessProduct(\n            np.atleast_2d(np.diff(np.array(X), axis=0))[::-1],\n            np.atleast_2d(np.diff(np.array(G), axis=0))[::-1],\n        ),\n    )\n\n\ndef initialize_X_and_G"))
+M("hi_unscaled_G", "G holds the unscaled gradient of the first point", ["C18", "C17"],
+  ("lbfgsb/main.py", "        X.append(np.copy(x))\n        G.append(grad)\n", "        X.append(np.copy(x))\n        G.append(grad / sf.scaling_factor)\n"))
+M("hi_diag_first_component", "diagonal utility returns matvec(v)[0]", ["C18"],
+  ("lbfgsb/utils.py", "        hess_inv_diag[i] = hess_inv.matvec(v)[i]\n", "        hess_inv_diag[i] = hess_inv.matvec(v)[0]\n"))
+M("hi_X_alias", "the stored iterate aliases the live x (no copy)", ["C18", "C10"],
+  ("lbfgsb/main.py", "            mats = update_lbfgs_matrices(\n                x.copy(),  # copy otherwise x might be changed in X when updated\n                grad,\n                X,\n                G,\n                maxcor,\n                mats,\n                is_force_update=False,\n                eps=eps_SY,\n                is_check_factorization=is_check_factorization,\n            )\n\n            # callback",
+   "            mats = update_lbfgs_matrices(\n                x,  # copy otherwise x might be changed in X when updated\n                grad,\n                X,\n                G,\n                maxcor,\n                mats,\n                is_force_update=False,\n                eps=eps_SY,\n                is_check_factorization=is_check_factorization,\n            )\n\n            # callback"))
+M("hi_callback_pairs_float32", "callback pairs rounded through float32", ["C18", "C07"],
+  ("lbfgsb/main.py", "                            np.atleast_2d(np.diff(np.array(X), axis=0)),\n                            np.atleast_2d(np.diff(np.array(G), axis=0)),\n                        ),\n                    ),\n                ):",
+   "                            np.atleast_2d(np.diff(np.array(X), axis=0)).astype(np.float32).astype(float),\n                            np.atleast_2d(np.diff(np.array(G), axis=0)),\n                        ),\n                    ),\n                ):"))
